@@ -1,7 +1,345 @@
 package main
 
-// C19 layer 3: bounded interleavings with the schedule as solver variables (see DESIGN.md §6 C19).
+// C19 layer 3: bounded interleavings with the schedule as solver variables.
+//
+// Each operation is executed symbolically on the real SSA with the registry map answering lookups
+// nondeterministically (other goroutines may have changed it), which yields every control-flow path of the
+// operation together with its ordered trace of visible events (mutex operations, lookups with the answer
+// the path assumed, updates, deletes, map replacement). For a tuple of operations (one per thread) and a
+// choice of one path per thread, an SMT query asks for timestamps of all events such that
+//   - program order holds, timestamps are distinct,
+//   - critical sections of the same mutex exclude each other unless both are read-mode,
+//   - every lookup sees the value of the latest earlier write to its key (or the initial content) and that
+//     value agrees with the answer the path assumed,
+//   - and NO permutation of the operations that respects real-time order explains the observed results and
+//     the final content under the atomic-map specification.
+// sat = a non-linearizable schedule (printed as the counterexample); unsat for every path combination =
+// all interleavings of that tuple are linearizable.
 
-func c19schedItems(c *Ctx) []Item { return nil }
+import (
+	"fmt"
+	"sort"
+	"strings"
+)
 
-func c19Layer3Covers(op string) bool { return false }
+type opPath struct {
+	trace []TraceEv
+	ret   string // "true", "false", "found", "absent", ""
+}
+
+const c19Name = "CRC16"
+
+func (c *Ctx) opPaths(op regOp) []opPath {
+	e := c.e()
+	s := c.regPrepare("init")
+	_, _, mapObj, ok := c.regState(s)
+	if !ok {
+		panic(bindErr("registry object not recognised"))
+	}
+	args, _, _ := c.regArgs(s, op)
+	fn := c.w.fn("codec." + op.Op)
+	if fn == nil {
+		panic(bindErr("codec." + op.Op + " not found"))
+	}
+	e.havocLookup = map[int]bool{mapObj: true}
+	oldMerge := e.merge
+	e.merge = false // every control-flow path keeps its own event trace
+	defer func() { e.havocLookup = nil; e.merge = oldMerge }()
+	s.trace = nil
+	e.pushCall(s, fn, args, nil)
+	var out []opPath
+	for _, fs := range e.Run(s) {
+		if fs.panicd != "" || fs.cut != "" {
+			panic(bindErr("path of " + op.Op + " ended abnormally: " + fs.panicd + fs.cut))
+		}
+		p := opPath{trace: fs.trace}
+		switch op.Op {
+		case "Registry":
+			if t, ok := fs.ret.(*Term); ok {
+				p.ret = map[*Term]string{True: "true", False: "false"}[t]
+			}
+		case "Get":
+			if tv, ok := fs.ret.(TupleV); ok && len(tv) == 2 {
+				if tv[1] == True {
+					p.ret = "found"
+				} else {
+					p.ret = "absent"
+				}
+			}
+		}
+		out = append(out, p)
+	}
+	return out
+}
+
+func c19schedItems(c *Ctx) []Item {
+	reg := regOp{"Registry", c19Name, "service"}
+	get := regOp{"Get", c19Name, ""}
+	rem := regOp{"Remove", c19Name, ""}
+	clr := regOp{"Clear", "", ""}
+	tuples := [][]regOp{
+		{reg, reg}, {reg, get}, {reg, rem}, {reg, clr}, {get, rem}, {get, clr}, {rem, rem}, {rem, clr}, {get, get}, {clr, clr},
+		{reg, reg, get}, {reg, reg, rem}, {reg, rem, get}, {reg, clr, get},
+	}
+	var items []Item
+	for _, tp := range tuples {
+		tp := tp
+		var names []string
+		for _, o := range tp {
+			names = append(names, o.Op)
+		}
+		items = append(items, Item{ID: "sched:" + strings.Join(names, "||"), Run: func(c *Ctx) { c19sched(c, tp) }})
+	}
+	return items
+}
+
+func c19Layer3Covers(op string) bool { return true }
+
+type schedEv struct {
+	thread int
+	ev     TraceEv
+	ts     *Term
+}
+
+func c19sched(c *Ctx, ops []regOp) {
+	e := c.e()
+	paths := make([][]opPath, len(ops))
+	for i, o := range ops {
+		paths[i] = c.opPaths(o)
+		if len(paths[i]) == 0 {
+			c.Inconclusive("no path for " + o.Op)
+			return
+		}
+	}
+	// enumerate path combinations
+	idx := make([]int, len(ops))
+	for {
+		c19combo(c, e, ops, paths, idx)
+		k := len(idx) - 1
+		for k >= 0 {
+			idx[k]++
+			if idx[k] < len(paths[k]) {
+				break
+			}
+			idx[k] = 0
+			k--
+		}
+		if k < 0 {
+			break
+		}
+	}
+}
+
+func permutations(n int) [][]int {
+	var out [][]int
+	var rec func(cur []int, used []bool)
+	rec = func(cur []int, used []bool) {
+		if len(cur) == n {
+			out = append(out, append([]int{}, cur...))
+			return
+		}
+		for i := 0; i < n; i++ {
+			if !used[i] {
+				used[i] = true
+				rec(append(cur, i), used)
+				used[i] = false
+			}
+		}
+	}
+	rec(nil, make([]bool, n))
+	return out
+}
+
+func c19combo(c *Ctx, e *Engine, ops []regOp, paths [][]opPath, idx []int) {
+	const W = 8
+	n := len(ops)
+	var evs []*schedEv
+	first := make([]*Term, n)
+	last := make([]*Term, n)
+	var cons []*Term
+	for t := 0; t < n; t++ {
+		var prev *Term
+		for _, ev := range paths[t][idx[t]].trace {
+			se := &schedEv{thread: t, ev: ev, ts: e.freshVar(fmt.Sprintf("ts_t%d", t), W)}
+			evs = append(evs, se)
+			if prev != nil {
+				cons = append(cons, Lt(prev, se.ts, false))
+			} else {
+				first[t] = se.ts
+			}
+			prev = se.ts
+			last[t] = se.ts
+		}
+		if first[t] == nil {
+			// an operation without visible events (e.g. Registry of a non-service): give it one point in time
+			ts := e.freshVar(fmt.Sprintf("ts_t%d", t), W)
+			first[t], last[t] = ts, ts
+			evs = append(evs, &schedEv{thread: t, ev: TraceEv{Kind: "nop"}, ts: ts})
+		}
+	}
+	total := len(evs)
+	for i := range evs {
+		cons = append(cons, Lt(evs[i].ts, C(W, uint64(total)), false))
+		for j := i + 1; j < len(evs); j++ {
+			cons = append(cons, Not(Eq(evs[i].ts, evs[j].ts)))
+		}
+	}
+	// critical sections per thread and mutex
+	type section struct {
+		thread   int
+		key      string
+		write    bool
+		acq, rel *Term
+	}
+	var secs []section
+	for t := 0; t < n; t++ {
+		open := map[string]*section{}
+		for _, se := range evs {
+			if se.thread != t {
+				continue
+			}
+			switch se.ev.Kind {
+			case "Lock", "RLock":
+				open[se.ev.Key] = &section{thread: t, key: se.ev.Key, write: se.ev.Kind == "Lock", acq: se.ts}
+			case "Unlock", "RUnlock":
+				if sc := open[se.ev.Key]; sc != nil {
+					sc.rel = se.ts
+					secs = append(secs, *sc)
+					delete(open, se.ev.Key)
+				}
+			}
+		}
+	}
+	for i := range secs {
+		for j := i + 1; j < len(secs); j++ {
+			a, b := secs[i], secs[j]
+			if a.thread == b.thread || a.key != b.key || (!a.write && !b.write) {
+				continue
+			}
+			cons = append(cons, Or(Lt(a.rel, b.acq, false), Lt(b.rel, a.acq, false)))
+		}
+	}
+	// content: 0 absent, 1 initial service, 2+t the service registered by thread t
+	const CW = 4
+	init := e.freshVar("init_present", 0)
+	initC := Ite(init, C(CW, 1), C(CW, 0))
+	type write struct {
+		ts  *Term
+		val *Term
+	}
+	var writes []write
+	for _, se := range evs {
+		switch se.ev.Kind {
+		case "update":
+			writes = append(writes, write{se.ts, C(CW, uint64(2+se.thread))})
+		case "delete", "replace":
+			writes = append(writes, write{se.ts, C(CW, 0)})
+		}
+	}
+	seenAt := func(ts *Term) *Term {
+		v := initC
+		for i, w := range writes {
+			latest := Lt(w.ts, ts, false)
+			for j, w2 := range writes {
+				if i != j {
+					latest = And(latest, Not(And(Lt(w.ts, w2.ts, false), Lt(w2.ts, ts, false))))
+				}
+			}
+			v = Ite(latest, w.val, v)
+		}
+		return v
+	}
+	getSeen := make([]*Term, n)
+	for _, se := range evs {
+		if se.ev.Kind != "lookup" {
+			continue
+		}
+		sv := seenAt(se.ts)
+		if se.ev.Res {
+			cons = append(cons, Not(Eq(sv, C(CW, 0))))
+		} else {
+			cons = append(cons, Eq(sv, C(CW, 0)))
+		}
+		if ops[se.thread].Op == "Get" {
+			getSeen[se.thread] = sv
+		}
+	}
+	final := seenAt(C(W, uint64(total)))
+	// no permutation explains the outcome
+	var unexplained []*Term
+	for _, perm := range permutations(n) {
+		valid := True
+		for a := 0; a < n; a++ {
+			for b := a + 1; b < n; b++ {
+				i, j := perm[a], perm[b] // i before j in the linearization
+				valid = And(valid, Not(Lt(last[j], first[i], false)))
+			}
+		}
+		cur := initC
+		match := True
+		for _, t := range perm {
+			p := paths[t][idx[t]]
+			switch ops[t].Op {
+			case "Registry":
+				if ops[t].Kind == "nonservice" {
+					match = And(match, B(p.ret == "false"))
+					break
+				}
+				absent := Eq(cur, C(CW, 0))
+				match = And(match, Eq(absent, B(p.ret == "true")))
+				cur = Ite(absent, C(CW, uint64(2+t)), cur)
+			case "Get":
+				found := Not(Eq(cur, C(CW, 0)))
+				match = And(match, Eq(found, B(p.ret == "found")))
+				if p.ret == "found" && getSeen[t] != nil {
+					match = And(match, Eq(getSeen[t], cur))
+				}
+			case "Remove", "Clear":
+				cur = C(CW, 0)
+			}
+		}
+		match = And(match, Eq(final, cur))
+		unexplained = append(unexplained, Not(And(valid, match)))
+	}
+	st := c.w.newState()
+	st.pc = cons
+	var names []string
+	for t := range ops {
+		names = append(names, fmt.Sprintf("%s#%d", ops[t].Op, idx[t]))
+	}
+	label := strings.Join(names, "||")
+	// feasibility of this path combination at all (otherwise the combination is vacuous, which is fine)
+	c.Prove(st, "linearizable:"+label, Not(And(unexplained...)), func(val func(*Term) uint64) *Violation {
+		// print the schedule
+		type row struct {
+			ts uint64
+			s  string
+		}
+		var rows []row
+		for _, se := range evs {
+			d := se.ev.Kind
+			if se.ev.Kind == "lookup" {
+				d += fmt.Sprintf("(%s)=%v", se.ev.Key, se.ev.Res)
+			} else if se.ev.Kind == "update" || se.ev.Kind == "delete" {
+				d += "(" + se.ev.Key + ")"
+			}
+			rows = append(rows, row{val(se.ts), fmt.Sprintf("T%d:%s %s", se.thread+1, ops[se.thread].Op, d)})
+		}
+		sort.Slice(rows, func(i, j int) bool { return rows[i].ts < rows[j].ts })
+		var sched []string
+		for _, r := range rows {
+			sched = append(sched, r.s)
+		}
+		var rets []string
+		for t := range ops {
+			rets = append(rets, fmt.Sprintf("T%d:%s -> %s", t+1, ops[t].Op, paths[t][idx[t]].ret))
+		}
+		return &Violation{Detail: fmt.Sprintf("a schedule of %s is not explained by any sequential order: %s; results %s; initially present=%v", label, strings.Join(sched, " ; "), strings.Join(rets, ", "), val(init) == 1),
+			Model:  map[string]any{"schedule": sched, "results": rets, "initially_present": val(init) == 1},
+			Replay: &ReplayReq{Steps: []map[string]any{step("op", "registry", "threads", 8, "n", 20000)}, Judge: Judge{Kind: "anomaly", Step: 0, Note: "race"}}}
+	})
+	if c.res.Sample == nil {
+		c.res.Sample = map[string]any{"tuple": label, "events": total, "permutations": len(permutations(n))}
+	}
+	c.res.Witness++
+}
